@@ -10,7 +10,7 @@ use serde_json::json;
 use std::collections::BTreeSet;
 
 const MAX_DEV: usize = 2;
-const N_MESHES: usize = 5;
+const N_MESHES: usize = 6;
 const EXEC_CAP: usize = 50_000;
 
 pub fn subject(which: usize) -> Mesh {
@@ -24,6 +24,16 @@ pub fn subject(which: usize) -> Mesh {
             // "roof": two normals sharing vertices
             let v = vec![Point3::new(0.0, 0.0, 0.0), Point3::new(0.0, 1.0, 0.0), Point3::new(1.0, 0.0, 0.0), Point3::new(1.0, 1.0, 0.0), Point3::new(-1.0, 0.0, 1.0), Point3::new(-1.0, 1.0, 1.0)];
             Mesh::new(v, vec![[0, 2, 3], [0, 3, 1], [4, 0, 1], [4, 1, 5]], false)
+        }
+        5 => {
+            // unwelded (every face owns its vertices, as read from an STL file) and two-sided: faces 0 and 1 share
+            // an edge geometrically but not by index, face 2 is the back of face 0 on coincident vertices
+            let v = vec![
+                Point3::new(0.0, 0.0, 0.0), Point3::new(1.0, 0.0, 0.0), Point3::new(1.0, 1.0, 0.0),
+                Point3::new(0.0, 0.0, 0.0), Point3::new(1.0, 1.0, 0.0), Point3::new(0.0, 1.0, 0.5),
+                Point3::new(0.0, 0.0, 0.0), Point3::new(1.0, 1.0, 0.0), Point3::new(1.0, 0.0, 0.0),
+            ];
+            Mesh::new(v, vec![[0, 1, 2], [3, 4, 5], [6, 7, 8]], false)
         }
         4 => {
             // the roof with every index triple rotated, so that the vertices near the references come last
@@ -320,7 +330,7 @@ fn expand(t: &Tables, st: &State, depth: usize, l: &mut Local, out: &mut Vec<Sta
 
 pub fn run(tier: Tier) -> i32 {
     let mut cx = Ctx::new("C14", tier, "model_checking");
-    cx.rule = "explicit-state search over selections (bit sets over the faces of a tetrahedron, a two-normal 'roof', an octahedron, the roof with an extra zero-area face and the roof with rotated index triples): initial states none, all, every singleton, every pair; actions {Add, Remove, Keep} x {facing: 7 directions x 3 angles; near_mesh: 4 reference meshes (two large planes, an offset copy, a small square whose border the subject overhangs) x all/any vertices x 2 distances x planar None/0.2 x angle None/0.3/1.0}; every transition (and the mesh built from every state) is executed under all hash-set iteration orders with at most 2 departures from the default order; the per-face predicate is computed (i) independently from the geometry for the plane references and (ii) by the code itself in the canonical context (singleton selection, Keep). distinct = distinct (mesh, selection) states".into();
+    cx.rule = "explicit-state search over selections (bit sets over the faces of a tetrahedron, a two-normal 'roof', an octahedron, the roof with an extra zero-area face, the roof with rotated index triples and an unwelded two-sided sheet): initial states none, all, every singleton, every pair; actions {Add, Remove, Keep} x {facing: 7 directions x 3 angles; near_mesh: 4 reference meshes (two large planes, an offset copy, a small square whose border the subject overhangs) x all/any vertices x 2 distances x planar None/0.2 x angle None/0.3/1.0}; every transition (and the mesh built from every state) is executed under all hash-set iteration orders with at most 2 departures from the default order; the per-face predicate is computed (i) independently from the geometry for the plane references and (ii) by the code itself in the canonical context (singleton selection, Keep). distinct = distinct (mesh, selection) states".into();
     let t = tables();
     cx.bounds = json!({"max_deviations": MAX_DEV, "criteria": t.crits.len(), "meshes": 3, "depth": "closure", "execution_cap": EXEC_CAP});
     cx.require(&["non-initial selection", "empty selection", "full selection", "partial selection", "facing criterion", "near-mesh criterion with angle tolerance", "near-mesh criterion without angle tolerance", "independent predicate agrees"]);
